@@ -469,7 +469,10 @@ class Average(Numeric):
       parent_decisions: List[Optional[float]]) -> float:
     del decision_point
     parent_decisions = [d for d in parent_decisions if d is not None]
-    return sum(parent_decisions) / len(parent_decisions)
+    decision = sum(parent_decisions) / len(parent_decisions)
+    # Round-off must not move the mean out of the range of the parents (which
+    # could be out of the range of the decision point).
+    return min(max(decision, min(parent_decisions)), max(parent_decisions))
 
 
 @pg.members([
@@ -515,7 +518,11 @@ class WeightedAverage(Numeric):
       if d is not None:
         decision += w * d
         denominator += w
-    return decision / denominator
+    decision /= denominator
+    # Round-off must not move the mean out of the range of the parents (which
+    # could be out of the range of the decision point).
+    parent_decisions = [d for d in parent_decisions if d is not None]
+    return min(max(decision, min(parent_decisions)), max(parent_decisions))
 
 
 #
